@@ -231,6 +231,45 @@ def _attr_row(cls, attr, func, kw):
             bool(kw.get("reshape", False)))
 
 
+# statement skeleton of the scalar validator: every test and every raise/return in order
+def _skeleton(fn):
+    import ast
+
+    out = []
+
+    def walk(stmts, depth):
+        for st in stmts:
+            if isinstance(st, ast.Expr) and isinstance(st.value, ast.Constant):
+                continue  # docstring
+            if isinstance(st, ast.If):
+                out.append("  " * depth + "if " + ast.unparse(st.test))
+                walk(st.body, depth + 1)
+                if st.orelse:
+                    out.append("  " * depth + "else")
+                    walk(st.orelse, depth + 1)
+            elif isinstance(st, ast.Raise):
+                out.append("  " * depth + "raise " + (ast.unparse(st.exc.func) if isinstance(st.exc, ast.Call) else ast.unparse(st.exc)))
+            elif isinstance(st, ast.Return):
+                out.append("  " * depth + "return " + (ast.unparse(st.value) if st.value is not None else ""))
+            elif isinstance(st, ast.Assign) and not (isinstance(st.targets[0], ast.Name) and st.targets[0].id.isupper()):
+                v = st.value
+                txt = ast.unparse(v.func) + "(...)" if isinstance(v, ast.Call) and len(ast.unparse(v)) > 40 else ast.unparse(v)
+                out.append("  " * depth + " = ".join(ast.unparse(t) for t in st.targets) + " = " + txt)
+            elif isinstance(st, ast.For):
+                out.append("  " * depth + "for " + ast.unparse(st.target) + " in " + ast.unparse(st.iter))
+                walk(st.body, depth + 1)
+            elif isinstance(st, ast.Try):
+                out.append("  " * depth + "try")
+                walk(st.body, depth + 1)
+                for h in st.handlers:
+                    out.append("  " * depth + "except " + (ast.unparse(h.type) if h.type is not None else ""))
+                    walk(h.body, depth + 1)
+            elif isinstance(st, ast.Expr) and isinstance(st.value, ast.Call):
+                out.append("  " * depth + ast.unparse(st.value.func) + "(...)")
+    walk(fn.body, 0)
+    return out
+
+
 def _input_checks_facts():
     """facts read from magpylib/_src/input_checks.py and class_Sensor.py (AST) that the hand-written validator model rests on"""
     import ast
@@ -266,41 +305,7 @@ def _input_checks_facts():
                 return ast.unparse(n.args[1])
         raise Refusal(f"no isinstance({var}, ...) in {fn.name}")
 
-    # statement skeleton of the scalar validator: every test and every raise/return in order
-    def skeleton(fn):
-        out = []
-
-        def walk(stmts, depth):
-            for st in stmts:
-                if isinstance(st, ast.Expr) and isinstance(st.value, ast.Constant):
-                    continue  # docstring
-                if isinstance(st, ast.If):
-                    out.append("  " * depth + "if " + ast.unparse(st.test))
-                    walk(st.body, depth + 1)
-                    if st.orelse:
-                        out.append("  " * depth + "else")
-                        walk(st.orelse, depth + 1)
-                elif isinstance(st, ast.Raise):
-                    out.append("  " * depth + "raise " + (ast.unparse(st.exc.func) if isinstance(st.exc, ast.Call) else ast.unparse(st.exc)))
-                elif isinstance(st, ast.Return):
-                    out.append("  " * depth + "return " + (ast.unparse(st.value) if st.value is not None else ""))
-                elif isinstance(st, ast.Assign) and not (isinstance(st.targets[0], ast.Name) and st.targets[0].id.isupper()):
-                    v = st.value
-                    txt = ast.unparse(v.func) + "(...)" if isinstance(v, ast.Call) and len(ast.unparse(v)) > 40 else ast.unparse(v)
-                    out.append("  " * depth + " = ".join(ast.unparse(t) for t in st.targets) + " = " + txt)
-                elif isinstance(st, ast.For):
-                    out.append("  " * depth + "for " + ast.unparse(st.target) + " in " + ast.unparse(st.iter))
-                    walk(st.body, depth + 1)
-                elif isinstance(st, ast.Try):
-                    out.append("  " * depth + "try")
-                    walk(st.body, depth + 1)
-                    for h in st.handlers:
-                        out.append("  " * depth + "except " + (ast.unparse(h.type) if h.type is not None else ""))
-                        walk(h.body, depth + 1)
-                elif isinstance(st, ast.Expr) and isinstance(st.value, ast.Call):
-                    out.append("  " * depth + ast.unparse(st.value.func) + "(...)")
-        walk(fn.body, 0)
-        return out
+    skeleton = _skeleton
 
     stree = ast.parse(open(os.path.join(REPO, "magpylib", "_src", "obj_classes", "class_Sensor.py")).read())
     scls = next(n for n in stree.body if isinstance(n, ast.ClassDef) and n.name == "Sensor")
@@ -894,7 +899,337 @@ def gen_WriteSet():
     write("WriteSet", body, "magpylib/_src/fields/*.py, utility.py, input_checks.py, obj_classes/*.py (AST; translate/writeset.py)")
 
 
-GENERATORS = {"AbsLen": gen_AbsLen, "KernTrace": gen_KernTrace, "StyleTemp": gen_StyleTemp, "Const": gen_Const, "Units": gen_Units, "Defaults": gen_Defaults, "StyleSchema": gen_StyleSchema, "Attr": gen_Attr, "PathPad": gen_PathPad, "Exits": gen_Exits, "Ndim": gen_Ndim, "Tol": gen_Tol, "CylSegGen": gen_CylSegGen, "ExcSync": gen_ExcSync, "InOut": gen_InOut, "WriteSet": gen_WriteSet}
+def _lq(t):
+    return '"' + t.replace("\\", "\\\\").replace('"', '\\"').replace("\n", "\\n") + '"'
+
+
+def _lstrs(xs):
+    return "[" + ", ".join(_lq(x) for x in xs) + "]"
+
+
+def _callees(node):
+    """names of all calls inside an expression in evaluation order (arguments before the call they feed)"""
+    import ast
+
+    out = []
+
+    def walk(n):
+        for ch in ast.iter_child_nodes(n):
+            walk(ch)
+        if isinstance(n, ast.Call):
+            out.append(ast.unparse(n.func))
+    if node is not None:
+        walk(node)
+    return out
+
+
+def _stmt_tree(stmts, where):
+    """the statement skeleton of a setter as a Lean `List Stmt` literal; refuses statement kinds the analysis has no rule for"""
+    import ast
+
+    items = []
+    for st in stmts:
+        if isinstance(st, ast.Expr) and isinstance(st.value, ast.Constant):
+            continue  # docstring
+        if isinstance(st, ast.Assign):
+            cs = _callees(st.value)
+            for t in st.targets:
+                is_attr = not (isinstance(t, ast.Name) or (isinstance(t, ast.Tuple) and all(isinstance(e, ast.Name) for e in t.elts)))
+                items.append(f".assign {_lq(ast.unparse(t))} {'true' if is_attr else 'false'} {_lstrs(cs)}")
+                cs = []
+        elif isinstance(st, ast.Expr):
+            items.append(f".expr {_lstrs(_callees(st.value))}")
+        elif isinstance(st, ast.Raise):
+            exc = st.exc.func if isinstance(st.exc, ast.Call) else st.exc
+            items.append(f".raise {_lq(ast.unparse(exc) if exc is not None else '')}")
+        elif isinstance(st, ast.Return):
+            items.append(f".ret {_lstrs(_callees(st.value))}")
+        elif isinstance(st, ast.If):
+            items.append(f".ite {_lstrs(_callees(st.test))} {_stmt_tree(st.body, where)} {_stmt_tree(st.orelse, where)}")
+        elif isinstance(st, ast.For) and not st.orelse:
+            items.append(f".loop {_lstrs(_callees(st.iter))} {_stmt_tree(st.body, where)}")
+        elif isinstance(st, (ast.Import, ast.ImportFrom, ast.Pass)):
+            items.append(f".skip {_lq(type(st).__name__)}")
+        else:
+            raise Refusal(f"{where}: statement kind {type(st).__name__} has no rule in the setter-form analysis")
+    return "[" + ", ".join(items) + "]"
+
+
+def gen_Setters():
+    """every property setter of magpylib/_src/obj_classes/*.py as a statement tree; every __init__ as a table
+    (parameter -> how it is consumed); the order of the checks in getBH_level2; which dimension / excitation attribute each
+    source class has; the TriangularMesh mode values; statement skeletons of the call-argument validators"""
+    import ast
+    import glob
+    import importlib
+    import inspect
+
+    import magpylib
+    from magpylib._src.utility import get_registered_sources
+
+    odir = os.path.join(REPO, "magpylib", "_src", "obj_classes")
+    setters, ctors, trees = [], [], {}
+    for path in sorted(glob.glob(os.path.join(odir, "class_*.py"))):
+        fname = os.path.basename(path)
+        tree = ast.parse(open(path).read())
+        trees[fname] = tree
+        mod = importlib.import_module("magpylib._src.obj_classes." + fname[:-3])
+        for cls in [n for n in tree.body if isinstance(n, ast.ClassDef)]:
+            real = getattr(mod, cls.name)
+            for fn in [n for n in cls.body if isinstance(n, ast.FunctionDef)]:
+                if any(isinstance(d, ast.Attribute) and d.attr == "setter" for d in fn.decorator_list):
+                    params = [a.arg for a in fn.args.args]
+                    if len(params) != 2:
+                        raise Refusal(f"setter {cls.name}.{fn.name} does not have the signature (self, value)")
+                    setters.append((fname, cls.name, fn.name, params[1], _stmt_tree(fn.body, f"{cls.name}.{fn.name}")))
+                if fn.name != "__init__":
+                    continue
+                # ---- constructor: how each named parameter is consumed
+                a = fn.args
+                params = [x.arg for x in a.posonlyargs + a.args + a.kwonlyargs][1:]
+                uses = {p: [] for p in params}
+                for node in ast.walk(fn):
+                    if isinstance(node, ast.Assign) and len(node.targets) == 1 and isinstance(node.targets[0], ast.Attribute) \
+                            and isinstance(node.targets[0].value, ast.Name) and node.targets[0].value.id == "self" \
+                            and isinstance(node.value, ast.Name) and node.value.id in uses:
+                        attr = node.targets[0].attr
+                        prop = inspect.getattr_static(real, attr, None)
+                        kind = "setter" if isinstance(prop, property) and prop.fset is not None else "plain"
+                        uses[node.value.id].append((kind, attr, ""))
+                    elif isinstance(node, ast.Call):
+                        f = node.func
+                        callee = ast.unparse(f)
+                        base = None
+                        if isinstance(f, ast.Attribute) and f.attr == "__init__":
+                            if isinstance(f.value, ast.Call) and ast.unparse(f.value) == "super()":
+                                base = next(b for b in real.__mro__[1:] if "__init__" in b.__dict__)
+                                args = list(node.args)
+                            elif isinstance(f.value, ast.Name):
+                                base = next(b for b in real.__mro__ if b.__name__ == f.value.id)
+                                args = list(node.args)[1:]
+                        if base is not None:
+                            bparams = [p for p in inspect.signature(base.__init__).parameters.values()][1:]
+                            pos = [p for p in bparams if p.kind in (p.POSITIONAL_ONLY, p.POSITIONAL_OR_KEYWORD)]
+                            for i, arg in enumerate(args):
+                                if isinstance(arg, ast.Name) and arg.id in uses:
+                                    if i >= len(pos):
+                                        raise Refusal(f"{cls.name}.__init__ passes more positional arguments than {base.__name__}.__init__ takes")
+                                    uses[arg.id].append(("forward", pos[i].name, base.__name__))
+                            for kw in node.keywords:
+                                if kw.arg is not None and isinstance(kw.value, ast.Name) and kw.value.id in uses:
+                                    uses[kw.value.id].append(("forward", kw.arg, base.__name__))
+                        elif callee != "super":
+                            for i, arg in enumerate(node.args):
+                                if isinstance(arg, ast.Name) and arg.id in uses:
+                                    uses[arg.id].append(("call", str(i), callee))
+                            for kw in node.keywords:
+                                if kw.arg is not None and isinstance(kw.value, ast.Name) and kw.value.id in uses:
+                                    uses[kw.value.id].append(("call", kw.arg, callee))
+                for p in params:
+                    us = list(dict.fromkeys(uses[p]))
+                    if not us:
+                        us = [("unused", "", "")]
+                    for kind, target, via in us:
+                        ctors.append((cls.name, p, kind, target, via))
+    if len(setters) < 20:
+        raise Refusal(f"only {len(setters)} setters found")
+    # bases of every class (MRO names), for resolving forwarded parameters
+    bases = []
+    for fname, tree in trees.items():
+        mod = importlib.import_module("magpylib._src.obj_classes." + fname[:-3])
+        for cls in [n for n in tree.body if isinstance(n, ast.ClassDef)]:
+            real = getattr(mod, cls.name)
+            own_init = "__init__" in real.__dict__
+            nxt = next((b.__name__ for b in real.__mro__[(1 if own_init else 0):] if "__init__" in b.__dict__ and b is not object), "")
+            bases.append((cls.name, own_init, nxt if not own_init else cls.name))
+    # the validator call in BaseGeo._init_position_orientation (constructor path of position)
+    geo = next(n for n in trees["class_BaseGeo.py"].body if isinstance(n, ast.ClassDef) and n.name == "BaseGeo")
+    ipo = next(n for n in geo.body if isinstance(n, ast.FunctionDef) and n.name == "_init_position_orientation")
+    pcall = next((n for n in ast.walk(ipo) if isinstance(n, ast.Call) and ast.unparse(n.func) == "check_format_input_vector"), None)
+    ocall = next((n for n in ast.walk(ipo) if isinstance(n, ast.Call) and ast.unparse(n.func) == "check_format_input_orientation"), None)
+    if pcall is None or ocall is None:
+        raise Refusal("_init_position_orientation no longer calls check_format_input_vector / check_format_input_orientation")
+    init_pos = _attr_row("BaseGeo", "position", "check_format_input_vector", _literal_kwargs(pcall))
+    init_ori = (ast.unparse(ocall.args[0]), _literal_kwargs(ocall).get("init_format", False))
+    pset = next(n for n in geo.body if isinstance(n, ast.FunctionDef) and n.name == "orientation"
+                and any(isinstance(d, ast.Attribute) and d.attr == "setter" for d in n.decorator_list))
+    ocall2 = next(n for n in ast.walk(pset) if isinstance(n, ast.Call) and ast.unparse(n.func) == "check_format_input_orientation")
+    set_ori = (ast.unparse(ocall2.args[0]), _literal_kwargs(ocall2).get("init_format", False))
+
+    # ---- getBH_level2: order of the top-level calls and of the first path assignment
+    wtree = ast.parse(open(os.path.join(REPO, "magpylib", "_src", "fields", "field_wrap_BH.py")).read())
+    wf = {n.name: n for n in wtree.body if isinstance(n, ast.FunctionDef)}
+    l2 = wf["getBH_level2"]
+    order = []
+
+    def visit(stmts):
+        for st in stmts:
+            if isinstance(st, (ast.If, ast.For, ast.Try, ast.With)):
+                for fld in ("test", "iter"):
+                    if hasattr(st, fld):
+                        order.extend(_callees(getattr(st, fld)))
+                visit(st.body)
+                visit(getattr(st, "orelse", []))
+                for h in getattr(st, "handlers", []):
+                    visit(h.body)
+                visit(getattr(st, "finalbody", []))
+            else:
+                if isinstance(st, ast.Assign):
+                    order.extend(_callees(st.value))
+                    for t in st.targets:
+                        if isinstance(t, ast.Attribute):
+                            order.append("assign " + ast.unparse(t))
+                elif isinstance(st, (ast.Expr, ast.Return, ast.Raise)):
+                    order.extend(_callees(getattr(st, "value", None) or getattr(st, "exc", None)))
+    visit(l2.body)
+    keep = ("getBH_dict_level2", "format_src_inputs", "check_dimensions", "check_excitations", "check_format_pixel_agg", "check_format_input_observers",
+            "getBH_level1", "check_getBH_output_type", "assign obj._position", "assign obj._orientation", "pixel_agg_func", "check_field_input")
+    l2order = [x for x in dict.fromkeys(order) if x in keep]
+    # calls anywhere in level2 / dict_level2 / level1 that look at `in_out` before the field functions (a validation would show here)
+    inout_checks = []
+    for name in ("getBH_level2", "getBH_dict_level2", "getBH_level1"):
+        for n in ast.walk(wf[name]):
+            if isinstance(n, ast.Call) and any(isinstance(a, ast.Name) and a.id == "in_out" for a in n.args):
+                inout_checks.append(f"{name}: {ast.unparse(n.func)}")
+    truth_tests = []
+    for n in ast.walk(l2):
+        if isinstance(n, ast.If) and isinstance(n.test, ast.Name) and n.test.id in ("sumup", "squeeze"):
+            truth_tests.append("if " + n.test.id)
+    # ---- which dimension-like / excitation-like attribute check_dimensions / check_excitations look at, per registered class
+    ic_tree = ast.parse(open(os.path.join(REPO, "magpylib", "_src", "input_checks.py")).read())
+    icf = {n.name: n for n in ic_tree.body if isinstance(n, ast.FunctionDef)}
+
+    def arg_names(fn):
+        for n in ast.walk(fn):
+            if isinstance(n, ast.For) and isinstance(n.target, ast.Name) and n.target.id == "arg":
+                return list(ast.literal_eval(n.iter))
+        raise Refusal(f"{fn.name}: attribute loop not found")
+    dim_names, exc_names = arg_names(icf["check_dimensions"]), arg_names(icf["check_excitations"])
+    cls_attrs = []
+    for name, c in sorted(get_registered_sources().items()):
+        has = lambda ns: [n for n in ns if hasattr(c, n)]
+        cls_attrs.append((name, has(dim_names), has(exc_names), getattr(c, "_field_func", None) is not None))
+    # ---- TriangularMesh mode values
+    tm = next(n for n in trees["class_magnet_TriangularMesh.py"].body if isinstance(n, ast.ClassDef) and n.name == "TriangularMesh")
+    tmf = {n.name: n for n in tm.body if isinstance(n, ast.FunctionDef)}
+    vals = next(ast.literal_eval(n.value) for n in tmf["_validate_mode_arg"].body if isinstance(n, ast.Assign) and ast.unparse(n.targets[0]) == "accepted_arg_vals")
+    mode_vals = [repr(v) for v in vals]
+    mode_users = sorted(n for n, f in tmf.items() if any(isinstance(c, ast.Call) and ast.unparse(c.func) == "self._validate_mode_arg" for c in ast.walk(f)))
+    # ---- skeletons of the call-argument validators modelled in Model/CallArgs.lean
+    bs = next(n for n in trees["class_BaseExcitations.py"].body if isinstance(n, ast.ClassDef) and n.name == "BaseSource")
+    geof = {n.name: n for n in geo.body if isinstance(n, ast.FunctionDef)}
+    skel = {"check_format_pixel_agg": _skeleton(icf["check_format_pixel_agg"]), "validate_field_func": _skeleton(icf["validate_field_func"]),
+            "check_dimensions": _skeleton(icf["check_dimensions"]), "check_excitations": _skeleton(icf["check_excitations"]),
+            "TriangularMesh._validate_mode_arg": _skeleton(tmf["_validate_mode_arg"]),
+            "BaseGeo._process_style_kwargs": _skeleton(geof["_process_style_kwargs"]), "BaseGeo._validate_style": _skeleton(geof["_validate_style"]),
+            "point_inside (in_out tests)": [], "BHJM_magnet_trimesh (in_out tests)": []}
+    for key, (fpath, fname_) in {"point_inside (in_out tests)": ("field_BH_tetrahedron.py", "point_inside"),
+                                 "BHJM_magnet_trimesh (in_out tests)": ("field_BH_triangularmesh.py", "BHJM_magnet_trimesh")}.items():
+        t = ast.parse(open(os.path.join(REPO, "magpylib", "_src", "fields", fpath)).read())
+        f = next(n for n in t.body if isinstance(n, ast.FunctionDef) and n.name == fname_)
+        skel[key] = [("elif " if False else "if ") + ast.unparse(n.test) for n in ast.walk(f) if isinstance(n, ast.If) and "in_out" in ast.unparse(n.test)]
+
+    b = lambda x: "true" if x else "false"
+    row = lambda r: f'⟨"{r[0]}", "{r[1]}", "{r[2]}", {list(r[3])}, {r[4]}, {r[5]}, {b(r[6])}, {b(r[7])}, {b(r[8])}, {b(r[9])}⟩'
+    body = ("import MagpyVerif.Gen.Attr\n\nnamespace MagpyVerif.Gen.Setters\n\n"
+            "/-- statement skeleton of a setter body: call names in evaluation order, assignment targets (attribute / subscript target or local name),\n"
+            "raises, returns, branches and loops -/\n"
+            "inductive Stmt where\n  | assign (target : String) (isAttr : Bool) (callees : List String)\n  | expr (callees : List String)\n"
+            "  | raise (exc : String)\n  | ret (callees : List String)\n  | ite (testCallees : List String) (thn els : List Stmt)\n"
+            "  | loop (iterCallees : List String) (body : List Stmt)\n  | skip (what : String)\n  deriving Repr\n\n"
+            "structure Setter where\n  file : String\n  cls : String\n  attr : String\n  param : String\n  body : List Stmt\n  deriving Repr\n\n"
+            "/-- every `@x.setter` of magpylib/_src/obj_classes/class_*.py -/\n"
+            "def setters : List Setter := [\n" + ",\n".join(f"  ⟨{_lq(f)}, {_lq(c)}, {_lq(a)}, {_lq(p)}, {t}⟩" for f, c, a, p, t in setters) + "]\n\n"
+            "/-- every named parameter of every `__init__`: (class, parameter, kind, target, via); kind = \"setter\" (`self.<target> = <parameter>` on a property\n"
+            "with a setter), \"plain\" (plain attribute), \"forward\" (passed to `<via>.__init__` as its parameter <target>, bound like Python binds the call),\n"
+            "\"call\" (argument number / keyword <target> of the call of <via>), \"unused\" -/\n"
+            "def ctors : List (String × String × String × String × String) := [\n" + ",\n".join(f"  ({_lq(c)}, {_lq(p)}, {_lq(k)}, {_lq(t)}, {_lq(v)})" for c, p, k, t, v in ctors) + "]\n\n"
+            "/-- (class, defines its own __init__, class whose __init__ runs) -/\n"
+            "def initOf : List (String × Bool × String) := [" + ", ".join(f"({_lq(c)}, {b(o)}, {_lq(n)})" for c, o, n in bases) + "]\n\n"
+            "/-- the call of check_format_input_vector in BaseGeo._init_position_orientation (the constructor's path for `position`) -/\n"
+            f"def initPosition : Attr.Row := {row(init_pos)}\n"
+            "/-- (argument, init_format) of the check_format_input_orientation call in the constructor path / in the orientation setter -/\n"
+            f"def initOrientation : String × Bool := ({_lq(init_ori[0])}, {b(init_ori[1])})\n"
+            f"def setterOrientation : String × Bool := ({_lq(set_ori[0])}, {b(set_ori[1])})\n\n"
+            "/-- getBH_level2: first occurrence, in source order, of the checks, of the field-function call and of the path assignments -/\n"
+            f"def level2Order : List String := {_lstrs(l2order)}\n"
+            "/-- calls in getBH_level2 / getBH_dict_level2 / getBH_level1 that receive `in_out` as a positional argument (a validator would show here) -/\n"
+            f"def inOutChecks : List String := {_lstrs(inout_checks)}\n"
+            "/-- `if sumup:` / `if squeeze:` — the flags are used by truth value only -/\n"
+            f"def truthTests : List String := {_lstrs(sorted(set(truth_tests)))}\n\n"
+            "/-- names looked at by check_dimensions / check_excitations, in order -/\n"
+            f"def dimNames : List String := {_lstrs(dim_names)}\ndef excNames : List String := {_lstrs(exc_names)}\n"
+            "/-- registered source class: which of those names it has (hasattr), and whether the class has a field function -/\n"
+            "def classAttrs : List (String × List String × List String × Bool) := [" + ", ".join(f"({_lq(n)}, {_lstrs(d)}, {_lstrs(e)}, {b(f)})" for n, d, e, f in cls_attrs) + "]\n\n"
+            "/-- TriangularMesh._validate_mode_arg: the accepted values (repr) and the methods that call it -/\n"
+            f"def modeValues : List String := {_lstrs(mode_vals)}\ndef modeUsers : List String := {_lstrs(mode_users)}\n\n"
+            "/-- statement skeletons of the validators of call arguments modelled in Model/CallArgs.lean -/\n"
+            "def skeleton : List (String × List String) := [\n" + ",\n".join(f"  ({_lq(k)}, {_lstrs(v)})" for k, v in skel.items()) + "]\n\n"
+            "end MagpyVerif.Gen.Setters\n")
+    write("Setters", body, "setters and constructors of magpylib/_src/obj_classes/class_*.py, getBH_level2, input_checks.py (AST + reflection)")
+
+
+NP_PROBE = r'''
+import json, numbers, os, sys, warnings
+import numpy as np
+sys.stdout = open(os.devnull, "w")
+warnings.simplefilter("ignore")
+SKIP = {"test", "info", "show_config", "show_runtime", "lookfor", "source", "who", "save", "savetxt", "savez", "savez_compressed", "memmap", "load",
+        "loadtxt", "genfromtxt", "fromfile", "seterr", "seterrcall", "setbufsize", "set_printoptions", "errstate", "printoptions", "get_include"}
+rows = []
+for name in sorted(dir(np)):
+    x = np.array([[[(1, 2, 3)] * 2] * 3] * 4)       # the test array of check_format_pixel_agg
+    try:
+        f = getattr(np, name)
+    except BaseException as e:
+        rows.append([name, "getattr-raises", type(e).__name__, False, False]); continue
+    if not callable(f):
+        rows.append([name, "notcallable", "", False, False]); continue
+    if name in SKIP:
+        rows.append([name, "unprobed", "", False, False]); continue
+    try:
+        r = f(x)
+    except BaseException as e:
+        rows.append([name, "raises", type(e).__name__, False, False]); continue
+    if not isinstance(r, numbers.Number):
+        rows.append([name, "other", "", False, False]); continue
+    B = np.arange(2 * 3 * 4 * 5 * 3, dtype=float).reshape(2, 3, 4, 5, 3)
+    try:
+        r1 = f(B, axis=tuple(range(3 - B.ndim, -1))); a1 = isinstance(r1, np.ndarray) and r1.shape == (2, 3, 4, 3)
+    except BaseException:
+        a1 = False
+    try:
+        r2 = f(B, axis=2); a2 = isinstance(r2, np.ndarray) and r2.shape == (2, 3, 5, 3)
+    except BaseException:
+        a2 = False
+    rows.append([name, "number", "", bool(a1), bool(a2)])
+sys.__stdout__.write(json.dumps({"version": np.__version__, "rows": rows}))
+'''
+
+
+def gen_NpNames():
+    """what `getattr(np, name)(x)` does for every name of the installed numpy on the test array of check_format_pixel_agg, and, for the names
+    that return a number, whether they reduce with `axis=` the way getBH_level2 calls them (probed in a fresh interpreter)"""
+    import json
+    import subprocess
+
+    p = subprocess.run([sys.executable, "-c", NP_PROBE], capture_output=True, text=True, timeout=300)
+    if p.returncode != 0:
+        raise Refusal(f"numpy probe failed: {p.stderr[-300:]}")
+    data = json.loads(p.stdout)
+    b = lambda x: "true" if x else "false"
+    rows = ",\n".join(f"  ({_lq(n)}, {_lq(k)}, {_lq(e)}, {b(a1)}, {b(a2)})" for n, k, e, a1, a2 in data["rows"])
+    body = ("namespace MagpyVerif.Gen.NpNames\n\n"
+            f"def numpyVersion : String := {_lq(data['version'])}\n\n"
+            "/-- (name, what `getattr(np, name)(x)` does: \"number\" (returns a numbers.Number) | \"other\" (returns something else) | \"notcallable\" |\n"
+            "\"raises\" | \"getattr-raises\" | \"unprobed\" (not called by the generator: global side effects), the exception raised,\n"
+            "reduces with `axis=(-k,…,-2)` to the expected shape, reduces with `axis=2` to the expected shape) -/\n"
+            f"def table : List (String × String × String × Bool × Bool) := [\n{rows}]\n\n"
+            "end MagpyVerif.Gen.NpNames\n")
+    write("NpNames", body, "the installed numpy (dir(numpy), probed like magpylib/_src/input_checks.py:check_format_pixel_agg does)")
+
+
+GENERATORS = {"AbsLen": gen_AbsLen, "KernTrace": gen_KernTrace, "StyleTemp": gen_StyleTemp, "Const": gen_Const, "Units": gen_Units, "Defaults": gen_Defaults, "StyleSchema": gen_StyleSchema, "Attr": gen_Attr, "PathPad": gen_PathPad, "Exits": gen_Exits, "Ndim": gen_Ndim, "Tol": gen_Tol, "CylSegGen": gen_CylSegGen, "ExcSync": gen_ExcSync, "InOut": gen_InOut, "WriteSet": gen_WriteSet, "Setters": gen_Setters, "NpNames": gen_NpNames}
 
 
 def main():
